@@ -26,6 +26,9 @@ pub enum Case {
     Corrupt { seed: Bytes, path: Vec<u32>, private: bool, how: Corrupt },
     /// malformed path text
     BadPath { seed: Bytes, text: String },
+    /// a well-formed string (valid checksum) whose fixed fields are wrong: a version byte changed (field 0..=3), the zero byte
+    /// in front of the private key changed (field 4, xprv only), or the string of the other kind given to this parser (field 5)
+    Reframed { seed: Bytes, path: Vec<u32>, private: bool, field: u8, value: u8 },
 }
 
 fn render(path: &[Comp], style: u8) -> String {
@@ -105,7 +108,7 @@ impl Property for C08 {
     const ID: &'static str = "C08";
 
     fn rule() -> String {
-        "Seeds of 16..64 bytes and the non-standard lengths 1, 8, 15, 65, 100, 1000; child indices 0, 1, 2^31-1, 2^31, 2^31+1, 2^32-1 and uniform; paths of depth 1..8 (up to 255 in the thorough tier) rendered with m/M, the hardened markers ' h H and an optional trailing slash; corrupted xprv/xpub strings (character replaced, payload byte changed under the old checksum, checksum byte changed, length changed, character dropped/appended); malformed path text. Oracle: reference BIP32 (HMAC-SHA512, CKDpriv, CKDpub, fingerprints, Base58Check serialisation) on num-bigint, validated against BIP32 test vectors 1-3: every step's key, chain code, depth, index, parent fingerprint, xprv and xpub string must match; derive_from_path(text) = iterated derive, also when the path is walked in two legs so that the second derive_from_path starts from a non-master key (derived, or parsed from its string; privately and publicly); public derivation from the neutered parent = neutering the private child; hardened derivation on an xpub is refused; from_string(to_string) preserves every field; every corrupted string is rejected. Non-trivial = path mixing hardened and normal components, an index at a boundary, or a corruption class; distinct by hash of the serialised case.".into()
+        "Seeds of 16..64 bytes and the non-standard lengths 1, 8, 15, 65, 100, 1000; child indices 0, 1, 2^31-1, 2^31, 2^31+1, 2^32-1 and uniform; paths of depth 1..8 (up to 255 in the thorough tier) rendered with m/M, the hardened markers ' h H and an optional trailing slash; corrupted xprv/xpub strings (character replaced, payload byte changed under the old checksum, checksum byte changed, length changed, character dropped/appended); malformed path text. Oracle: reference BIP32 (HMAC-SHA512, CKDpriv, CKDpub, fingerprints, Base58Check serialisation) on num-bigint, validated against BIP32 test vectors 1-3: every step's key, chain code, depth, index, parent fingerprint, xprv and xpub string must match; derive_from_path(text) = iterated derive, also when the path is walked in two legs so that the second derive_from_path starts from a non-master key (derived, or parsed from its string; privately and publicly); public derivation from the neutered parent = neutering the private child; hardened derivation on an xpub is refused; from_string(to_string) preserves every field; every corrupted string is rejected, and so is a well-formed string (valid checksum) whose version bytes are not those of its kind, whose private-key pad byte is not zero, or which is the serialisation of the other kind of key. Non-trivial = path mixing hardened and normal components, an index at a boundary, or a corruption class; distinct by hash of the serialised case.".into()
     }
 
     fn assumptions() -> Vec<String> {
@@ -144,6 +147,7 @@ impl Property for C08 {
                     1 => any::<u16>().prop_map(Corrupt::DropChar),
                     1 => (0u8..58).prop_map(Corrupt::AppendChar),
                 ]).prop_map(|(seed, path, private, how)| Case::Corrupt { seed, path, private, how }),
+            3 => (seed_strategy(), prop::collection::vec(index_strategy(), 0..3), any::<bool>(), 0u8..6, any::<u8>()).prop_map(|(seed, path, private, field, value)| Case::Reframed { seed, path, private, field, value }),
             1 => (seed_strategy(), prop::sample::select(vec!["m/x", "m/2147483648", "0/1", "", "x", "m/1/-1", "n/1", "m/4294967296", "m/1/a'"])).prop_map(|(seed, t)| Case::BadPath { seed, text: t.to_string() }),
         ]
         .boxed()
@@ -212,6 +216,28 @@ impl Property for C08 {
                     compare_priv(&built, &rcur, "xprv_new")?;
                     let builtp = lib_call("ExtendedPublicKey::new", || ExtendedPublicKey::new(&lcur.get_public_key(), &lcur.get_chain_code(), &lcur.get_depth(), &lcur.get_index(), Some(&lcur.get_parent_fingerprint())))?;
                     compare_pub(&builtp, &rcur, "xpub_new")?;
+                    // the same constructors given the key in its uncompressed form (a PrivateKey flagged uncompressed, a decompressed
+                    // PublicKey): BIP32 serialises and hashes the compressed point whatever form the caller holds
+                    {
+                        let unc_priv = lcur.get_private_key().compress_public_key(false);
+                        let b2 = lib_call("ExtendedPrivateKey::new(uncompressed flag)", || ExtendedPrivateKey::new(&unc_priv, &lcur.get_chain_code(), &lcur.get_depth(), &lcur.get_index(), Some(&lcur.get_parent_fingerprint())))?;
+                        compare_priv(&b2, &rcur, "xprv_new_from_uncompressed_key")?;
+                        let neutered = lib_call("from_xpriv", || ExtendedPublicKey::from_xpriv(&b2))?;
+                        compare_pub(&neutered, &rcur, "xpub_of_xprv_new_from_uncompressed_key")?;
+                        let unc_pub = lcur.get_public_key().to_decompressed().map_err(|e| failure("to_decompressed", e.to_string(), "Ok"))?;
+                        let bp2 = lib_call("ExtendedPublicKey::new(decompressed key)", || ExtendedPublicKey::new(&unc_pub, &lcur.get_chain_code(), &lcur.get_depth(), &lcur.get_index(), Some(&lcur.get_parent_fingerprint())))?;
+                        compare_pub(&bp2, &rcur, "xpub_new_from_decompressed_key")?;
+                        if rcur.depth < 255 {
+                            for ci in [0u32, 0x8000_0001] {
+                                if let (Ok(lc), Some(rc)) = (lib_call("derive(from new, uncompressed)", || b2.derive(ci))?, bip32::derive(&rcur, ci)) {
+                                    compare_priv(&lc, &rc, "child_of_xprv_new_from_uncompressed_key")?;
+                                }
+                            }
+                            if let (Ok(lc), Some(rc)) = (lib_call("xpub derive(from new, decompressed)", || bp2.derive(2))?, bip32::derive(&rcur, 2)) {
+                                compare_pub(&lc, &rc, "child_of_xpub_new_from_decompressed_key")?;
+                            }
+                        }
+                    }
                     // keys rebuilt from their parts derive like the originals
                     if rcur.depth < 255 {
                         for ci in [1u32, 0x8000_0002] {
@@ -309,6 +335,43 @@ impl Property for C08 {
                     }
                 }
                 o.nt("corrupt-extended-key");
+            }
+            Case::Reframed { seed, path, private, field, value } => {
+                let sd = seed.to_vec();
+                let Some(mut k) = bip32::master(&sd) else { return Ok(o) };
+                for i in path {
+                    match bip32::derive(&k, *i) {
+                        Some(n) => k = n,
+                        None => return Ok(o),
+                    }
+                }
+                let shown = if *private { k.clone() } else { bip32::neuter(&k) };
+                let good = bip32::to_string(&shown);
+                let mut payload = codec::base58check_decode(&good).ok_or_else(|| failure("harness_self_check", "reference string does not decode", "valid"))?;
+                let what = match field % 6 {
+                    f @ 0..=3 => {
+                        payload[f as usize] ^= (*value).max(1);
+                        format!("version byte {} changed", f)
+                    }
+                    4 if *private => {
+                        payload[45] = (*value).max(1);
+                        "the byte in front of the private key is not zero".to_string()
+                    }
+                    _ => {
+                        // the other kind's string
+                        payload = codec::base58check_decode(&bip32::to_string(&if *private { bip32::neuter(&k) } else { k.clone() })).unwrap();
+                        "a string of the other kind".to_string()
+                    }
+                };
+                let bad = codec::base58check_encode(&payload);
+                if *private {
+                    if let Ok(x) = lib_call("xprv from_string(reframed)", || ExtendedPrivateKey::from_string(&bad))? {
+                        return Err(failure("reframed_xprv_rejected", format!("Ok (re-serialises as {}) for {} ({})", x.to_string().unwrap_or_default(), bad, what), "Err: not the serialisation of an extended private key"));
+                    }
+                } else if let Ok(x) = lib_call("xpub from_string(reframed)", || ExtendedPublicKey::from_string(&bad))? {
+                    return Err(failure("reframed_xpub_rejected", format!("Ok (re-serialises as {}) for {} ({})", x.to_string().unwrap_or_default(), bad, what), "Err: not the serialisation of an extended public key"));
+                }
+                o.nt("well-formed-string-with-wrong-fixed-fields");
             }
             Case::BadPath { seed, text } => {
                 let sd = seed.to_vec();
